@@ -280,6 +280,8 @@ class Canon:
                     return self.bits(e)
                 return ("mod", self.bits(e.left), self.bits(e.right))
             if isinstance(e.op, ast.Pow):
+                if _is_int(self._resolve(e.left), 2):
+                    return ("shl", ("int", 1), self.arith(e.right))      # 2 ** n == 1 << n
                 return ("pow", self.bits(e.left), self.bits(e.right))
             return (type(e.op).__name__, self.bits(e.left), self.bits(e.right))
         if isinstance(e, ast.UnaryOp):
